@@ -102,7 +102,7 @@ MANIFEST = {
             "vdiff-dupinst). when: no theorem - the Coq model has no when; the statement 'defaults exactly where the when holds' "
             "is checked by the oracle when-defaults against a python reference on a fixed family of modules (XPath limited to "
             "three condition shapes; lyd_validate_module is driven through impl/t_valid.c, which returns no change set); two deviations "
-            "found there are listed (when-stale-dependency, when-autodel-default-case) - they are also why an abstract "
+            "found there are listed (when-stale-dependency - fixed by 7b3176d, now expected by the reference -, when-autodel-default-case) - they are also why an abstract "
             "when_ok : sid -> forest -> bool threaded through the Coq model was not attempted: libyang's result depends on the "
             "ORDER in which conditions are resolved and on LYD_WHEN_TRUE flags of earlier validations, so 'the' forest the "
             "condition is evaluated on is not a function of the input tree. Not modelled: must / unique / leafref, several modules (with data of "
